@@ -107,7 +107,7 @@ func (e *Exec) globalObj(g *ssa.Global) *Object {
 
 var initAllow = []string{
 	"github.com/TheManticoreProject/Manticore",
-	"io", "errors", "encoding/binary", "encoding/hex", "encoding/base64", "unicode/utf8", "unicode/utf16", "strconv", "bytes", "strings",
+	"io", "errors", "encoding/binary", "encoding/hex", "encoding/base64", "unicode", "unicode/utf8", "unicode/utf16", "strconv", "bytes", "strings",
 }
 
 func initAllowed(path string) bool {
